@@ -745,7 +745,7 @@ func verifyFunc(w *World, sp *Specs, fn *ssa.Function, spec *FuncSpec, safety bo
 	}
 	sort.Strings(res.UsedExtern)
 	res.Lits = x.literalAxioms()
-	res.Lits = append(res.Lits, x.specAxioms()...)
+	attachAxioms(res.Obligs, x.specAxioms())
 	li := x.loopsOf(fn)
 	res.Loops = len(li.headers)
 	for _, h := range li.headers {
@@ -815,6 +815,46 @@ func verifyLemma(w *World, sp *Specs, l *LemmaSpec) *FuncResult {
 	}
 	probe := &Oblig{Name: x.key + "#cover:entry", Func: x.key, Kind: "cover", Hyps: append([]*Term(nil), st.pc...), Goal: tFalse, Cover: true, Desc: "lemma hypotheses are satisfiable"}
 	res.Obligs = append(x.obligs, probe)
-	res.Lits = append(x.literalAxioms(), x.specAxioms()...)
+	res.Lits = x.literalAxioms()
+	attachAxioms(res.Obligs, x.specAxioms())
 	return res
+}
+
+// attachAxioms gives each obligation the user axioms that share a symbol with it (keeps unrelated queries quantifier free).
+func attachAxioms(obs []*Oblig, axioms []*Term) {
+	if len(axioms) == 0 {
+		return
+	}
+	axSyms := make([]map[string]bool, len(axioms))
+	for i, a := range axioms {
+		axSyms[i] = map[string]bool{}
+		symbolsOf(a, axSyms[i])
+	}
+	for _, o := range obs {
+		syms := map[string]bool{}
+		for _, h := range o.Hyps {
+			symbolsOf(h, syms)
+		}
+		symbolsOf(o.Goal, syms)
+		for i, a := range axioms {
+			for k := range axSyms[i] {
+				if syms[k] {
+					o.Axioms = append(o.Axioms, a)
+					break
+				}
+			}
+		}
+	}
+}
+
+func symbolsOf(t *Term, out map[string]bool) {
+	if t.UF != nil {
+		out[t.UF.Name] = true
+	}
+	if t.Var && !strings.Contains(t.Op, "!") {
+		out[t.Op] = true
+	}
+	for _, a := range t.Args {
+		symbolsOf(a, out)
+	}
 }
